@@ -20,7 +20,7 @@ import (
 // A scenario is one run of the real binary on a pty with K consecutive
 // emulations of a three-instruction program
 //
-//	lw  x7,  0(x6)     load a word through a pointer the provider supplies
+//	lw  x7,  0(x6)     load through a pointer the provider supplies (lb/lh/lw/ld per scenario)
 //	sw  x5,  0(x6)     overwrite it with a value the provider supplies
 //	lw  x28, 0(x6)     read it back
 //
@@ -36,9 +36,31 @@ type ToolScenario struct {
 	K       int      `json:"k"`       // emulations in the run
 	InImage []bool   `json:"inimage"` // per emulation: pointer into the image's data
 	Ptr     []uint64 `json:"ptr"`
-	MemAns  []uint32 `json:"memans"` // answer to the memory prompt (pointer outside the image)
-	Val     []uint32 `json:"val"`    // value of x5
-	Data    []byte   `json:"data"`   // the image's data segment at toolDataAddr
+	MemAns  []uint64 `json:"memans"`      // answer to the memory prompt (pointer outside the image), cut to the width
+	Val     []uint64 `json:"val"`         // value of x5
+	Data    []byte   `json:"data"`        // the image's data segment at toolDataAddr
+	W       int      `json:"w,omitempty"` // access width in bytes: 1, 2, 4 (also when 0) or 8
+}
+
+func (s *ToolScenario) w() int {
+	switch s.W {
+	case 1, 2, 8:
+		return s.W
+	}
+	return 4
+}
+
+// sextW is the value a signed load of the scenario's width leaves in a register.
+func (s *ToolScenario) sextW(v uint64) uint64 {
+	switch s.w() {
+	case 1:
+		return uint64(int64(int8(v)))
+	case 2:
+		return uint64(int64(int16(v)))
+	case 4:
+		return uint64(int64(int32(v)))
+	}
+	return v
 }
 
 const (
@@ -65,8 +87,14 @@ func GenToolScenario(r *core.Rand) *ToolScenario {
 		} else {
 			s.Ptr = append(s.Ptr, outside[r.Intn(2)])
 		}
-		s.MemAns = append(s.MemAns, uint32(r.Uint64()))
-		s.Val = append(s.Val, uint32(r.Uint64()))
+		s.MemAns = append(s.MemAns, r.Uint64())
+		s.Val = append(s.Val, r.Uint64())
+	}
+	// drawn last: scenarios drawn before widths existed keep their pointers
+	s.W = []int{4, 1, 2, 4, 8}[r.Intn(5)]
+	mask := ^uint64(0) >> (64 - 8*uint(s.w()))
+	for i := range s.MemAns {
+		s.MemAns[i] &= mask
 	}
 	return s
 }
@@ -92,15 +120,14 @@ func (s *ToolScenario) desc() *elfref.Desc {
 	add := func(name string, rd, rs1, rs2 int, imm int64) {
 		prog = append(prog, rvref.ProgIns{Addr: toolCodeAddr + uint64(len(prog))*4, Word: rvref.Enc(name, rd, rs1, rs2, imm), Name: name, Text: rvref.Text(name, rd, rs1, rs2, imm)})
 	}
-	add("lw", 7, 6, 0, 0)
-	add("sw", 0, 6, 5, 0)
-	add("lw", 28, 6, 0, 0)
+	ld, st := map[int]string{1: "lb", 2: "lh", 4: "lw", 8: "ld"}[s.w()], map[int]string{1: "sb", 2: "sh", 4: "sw", 8: "sd"}[s.w()]
+	add(ld, 7, 6, 0, 0)
+	add(st, 0, 6, 5, 0)
+	add(ld, 28, 6, 0, 0)
 	add("addi", 0, 0, 0, 0)
 	add("addi", 0, 0, 0, 0)
 	return imggen.Exec(prog, toolCodeAddr, toolDataAddr, s.Data, 0)
 }
-
-func sext32(v uint32) uint64 { return uint64(int64(int32(v))) }
 
 // input is the whole input of the run as a correct tool consumes it.
 func (s *ToolScenario) input() string {
@@ -177,7 +204,7 @@ func RunToolScenario(s *ToolScenario) (vs []ToolViolation, harness string) {
 		return nil, "malformed tool scenario"
 	}
 	for i := 0; i < s.K; i++ {
-		if s.InImage[i] && (s.Ptr[i] < toolDataAddr || s.Ptr[i] > toolDataAddr+28) {
+		if s.InImage[i] && (s.Ptr[i] < toolDataAddr || s.Ptr[i] > toolDataAddr+24) {
 			return nil, "malformed tool scenario (pointer outside the data segment)"
 		}
 	}
@@ -192,7 +219,7 @@ func RunToolScenario(s *ToolScenario) (vs []ToolViolation, harness string) {
 		want = append(want, "reg x6")
 		wantEmu = append(wantEmu, i)
 		if !s.InImage[i] {
-			want = append(want, fmt.Sprintf("mem 0x%x 4", s.Ptr[i]))
+			want = append(want, fmt.Sprintf("mem 0x%x %d", s.Ptr[i], s.w()))
 			wantEmu = append(wantEmu, i)
 		}
 		want = append(want, "reg x5")
@@ -235,11 +262,15 @@ func RunToolScenario(s *ToolScenario) (vs []ToolViolation, harness string) {
 		}
 	}
 	for i := 0; i <= last && i < len(o.regs); i++ {
-		first := sext32(s.MemAns[i])
+		mask := ^uint64(0) >> (64 - 8*uint(s.w()))
+		first := s.sextW(s.MemAns[i] & mask)
 		if s.InImage[i] {
 			off := s.Ptr[i] - toolDataAddr
-			d := s.Data[off : off+4]
-			first = sext32(uint32(d[0]) | uint32(d[1])<<8 | uint32(d[2])<<16 | uint32(d[3])<<24)
+			var v uint64
+			for k := s.w() - 1; k >= 0; k-- {
+				v = v<<8 | uint64(s.Data[int(off)+k])
+			}
+			first = s.sextW(v)
 		}
 		checks := []struct {
 			reg  string
@@ -251,11 +282,11 @@ func RunToolScenario(s *ToolScenario) (vs []ToolViolation, harness string) {
 				reg  string
 				want uint64
 				cls  string
-			}{"x28", sext32(s.Val[i]), "load-after-store"}, struct {
+			}{"x28", s.sextW(s.Val[i] & mask), "load-after-store"}, struct {
 				reg  string
 				want uint64
 				cls  string
-			}{"x5", uint64(s.Val[i]), "stored-value"})
+			}{"x5", s.Val[i], "stored-value"})
 		}
 		bad := false
 		for _, c := range checks {
